@@ -37,7 +37,7 @@ EXTRA_MODULES = {
     "C05": ["Tie.SigprocTables", "Tie.SigprocCodec"],
     "C06": ["Tie.Plan", "Tie.StreamCalls", "Tie.Collapse", "Tie.Dedisperse", "Kernels.ExtractTim", "Kernels.ExtractBpass", "Kernels.Dedisperse"],
     "C07": ["Tie.Plan", "Tie.StreamCalls", "Tie.Subband", "Kernels.InvertFreq", "Kernels.MaskChannels", "Kernels.Subband",
-            "Kernels.RemoveZerodm", "Kernels.Downsample2d"],
+            "Kernels.RemoveZerodm", "Kernels.Downsample2d", "Tie.CleanRfi"],
     "C08": ["Tie.HeaderUpdates"],
     "C09": ["Tie.Dedisperse", "Tie.Subband", "Kernels.Dedisperse", "Kernels.Subband", "Kernels.RollBlock", "Kernels.DmtBlock", "Tie.DmLaw", "Tie.DedispBlock", "Tie.BlockCalls"],
     "C10": ["Tie.Moments", "Tie.ChannelStats"],
